@@ -35,6 +35,42 @@ PROPS = {
                 assume=COMMON_ASSUME + ["package clock replaced through the package's own timeNow/timeAfterFunc test variables; due timers may stay in flight across later ops (Stop() then reports false)"]),
 }
 
+def _pool(test, rule, nontriv, quick=12000, thorough=150000, extra_assume=None):
+    return dict(kind="harness", pkg="./poolsim", test=test,
+                quick=dict(checks=quick, shards=4, timeout=600),
+                thorough=dict(checks=thorough, shards=16, timeout=3000),
+                rule="rapid-generated pool histories (resolver updates, state reports for pool/replacement/removed/unknown conns, picks on current and stale pickers "
+                     "with plain/BIND/BOUND/UNBIND methods and keys from a 4-key alphabet, completions with 6 outcomes, clock advances incl. detector-window boundaries +-1ns, "
+                     "factory failures; steering composites expand to primitive ops) executed against the real balancer behind a fake ClientConn in a synctest bubble and "
+                     "compared step by step with the Appendix A reference model. " + rule + " Non-trivial = " + nontriv +
+                     "; distinct = FNV-1a of the canonical JSON of the case.",
+                assume=POOL_ASSUME + (extra_assume or []))
+
+
+PROPS.update({
+    "C01": _pool("TestC01", "Profile 'affinity'. Oracle: a BOUND/UNBIND pick for a bound key whose home channel is READY is placed on the home channel's current connection (any picker) and the most recent picker does place it; home not READY and fallback off => ErrNoSubConnAvailable; bindings change only on successful BIND (unbound keys only) and successful UNBIND.",
+                 "the history has a keyed pick for a bound key with READY home and at least one of {home channel swapped by a refresh, stale picker, saturated home, BIND of an already bound key, UNBIND, home not READY}",
+                 extra_assume=["keys whose home channel was dead (Shutdown) while bound are don't-care until unbound; the empty key is no key"]),
+    "C02": _pool("TestC02", "Profile 'load'. Oracle: every unkeyed/unknown-key placement is on a channel of the picker's READY snapshot whose model in-flight count (placements minus completions, never read from the library) is minimal; end-of-case drain: after completing every call, n picks land on n distinct READY channels.",
+                 "a least-loaded choice among >=2 snapshot channels plus a completion with a non-ok outcome, after a swap, or on a channel that left READY"),
+    "C03": _pool("TestC03", "Profile 'size' ((min,max,watermark) from {0..6}x{0..6}x{0..4} incl. min>max, strict and lenient factories, pool emptied by shutdowns). Oracle: exactly max(1,min) conns after the first non-empty update; growth only by a saturated pick below max with no Idle/Connecting channel, that pick is told to wait; placement at max; size <= max for min<=max; RemoveSubConn only for the old conn of a completed refresh.",
+                 "a growth event, a saturated pick at maxSize, or a re-created pool"),
+    "C04": _pool("TestC04", "Profile 'states' (hostile state reports for pool/replacement/removed/unknown conns, repeats, shutdowns, refreshes). Oracle: once anything was published the last published state equals the aggregate over pool conns; READY-set change => publication; picker fails fast with ErrTransientFailure iff published with TRANSIENT_FAILURE; reports for non-pool conns publish nothing.",
+                 ">=2 distinct published states, >=1 report for a non-pool conn, and a swap or a shutdown"),
+    "C07": _pool("TestC07", "Profile 'detector' (unresponsive_calls 0-4, unresponsive_detection_ms in {0,1,7,100,60000,2^31,2^32-1}). Oracle: reference detector per channel (exact big-integer window ms*2^k); refresh attempt during a completion expected <=> observed; failed creation does not disable later refreshes; swap removes the old conn exactly once; detection disabled => never.",
+                 "a refresh expected-and-observed plus one of {boundary hit exactly / +-1ns, backoff k>=1, server-side deadline, deadline call started before the last response, factory refusal, suppressed by refresh in progress}"),
+    "C08": _pool("TestC08", "Profile 'fallback' (fallback_to_ready on). Oracle: keyed pick with home not READY on the most recent picker is placed on a READY channel whenever one exists (also saturated), the stand-in is reused while it stays READY and home stays not READY (follows a refresh of the stand-in), home READY again => home; bindings unchanged by fallback.",
+                 ">=1 reuse of a stand-in plus one of {saturated READY set, stand-in refreshed, stand-in failed, home recovered}"),
+    "C09": _pool("TestC09", "Profile 'rr' (ROUND_ROBIN, 1-6 channels, BIND picks with deadlines/cancellation, blocked picks observed with synctest.Wait). Oracle: assignments follow creation order cyclically while the composition is unchanged (first after a change re-synchronises); a pick is handed its channel only when READY or after its context ended; blocked picks are released by the READY report / swap / context end within one 100 ms poll period of virtual time; other calls obey the load rule.",
+                 ">=4 in-order BIND assignments or a blocked BIND released by READY or by context end"),
+    "C05": _pool("TestC05", "Profile 'hostile' (all feature flags random; nil / typed-nil / empty / non-struct request messages; locators that do not resolve, resolve to an empty list or to a non-string; picks and completions without the interceptor context; stale pickers with every conn down; failing and strict factories; empty address lists; nil / foreign / alternative configs; reports for unknown, removed and replacement conns; pool emptied by shutdowns). Oracle: recover() around every library entry - any panic is a violation; a request whose key cannot be extracted is never placed.",
+                 "the history contains at least one hostile element (see the per-class labels)"),
+    "C06": _pool("TestC06", "Profile 'hostile' plus a lock probe after every op (a state report for a never-seen conn must return: the balancer lock is free). Oracle: a real-time watchdog outside the bubble (3 s; normal latency is microseconds) catches any call that does not return; a pick that is not a round-robin BIND must not block (synctest.Wait shows it durably blocked); a blocked round-robin BIND returns once its channel is READY or within one 100 ms poll period of virtual time after its context ended, and other calls keep working meanwhile.",
+                 "the history reaches one of the named states: factory refusing a resolver update (empty list with the strict factory / armed failure), resolver update on an emptied pool, saturated pool with fallback, calls issued while a round-robin BIND is blocked"),
+    "C20": _pool("TestC20", "Profile 'addresses' (>=3 address lists, resolver errors, growth, refreshes at every stage). Oracle: after every update every alive pool conn has the latest list and was asked to reconnect; growth and replacement conns are created with the latest list; a replacement takes over with the latest list; a resolver error causes no ClientConn call.",
+                 "a resolver update while a replacement exists followed by its swap, or growth"),
+})
+
 
 def rapid_seed(verif_seed, shard):
     return 1 + ((verif_seed * 2654435761 + shard * 40503) % (2 ** 62))
